@@ -54,12 +54,14 @@ Plain(p, env) ==
       [] p.t = "bin" -> PyBin(p.op, Plain(p.l, env), Plain(p.r, env))
       [] p.t = "un" -> PyUn(IF p.op = "not_" THEN "not" ELSE p.op, Plain(p.a, env))
       [] p.t = "cmp" -> PyCompare(p.op, Plain(p.l, env), Plain(p.r, env))
+      \* the plain computation is Python's own "a or b" / "a and b": the right operand is not
+      \* computed when the left one decides (so it is DEFINED there even if the right one raises)
       [] p.t = "log" ->
-            LET a == Plain(p.l, env) b == Plain(p.r, env) IN
+            LET a == Plain(p.l, env) IN
             IF IsUnrep(a) \/ IsErr(a) THEN a
-            ELSE IF IsUnrep(b) \/ IsErr(b) THEN b   \* both operands are built eagerly
-            ELSE BoolV(IF p.op = "and" THEN Truthy(a) /\ Truthy(b)
-                                       ELSE Truthy(a) \/ Truthy(b))
+            ELSE IF Truthy(a) = (p.op = "or") THEN BoolV(p.op = "or")
+            ELSE LET b == Plain(p.r, env) IN
+                 IF IsUnrep(b) \/ IsErr(b) THEN b ELSE BoolV(Truthy(b))
       [] p.t = "ord" -> Err("TypeError")
       [] p.t = "call" ->
             LET fv == Plain(p.f, env)
